@@ -117,3 +117,9 @@ def any_change_to_a_wrapper_is_rejected(field, tx, rx, plain, octets, key2, sid2
     except (KNXSecureValidationError, CouldNotParseKNXIP):
         return
     assert False, "a modified wrapper was accepted"
+
+
+ASSUMPTIONS = [
+    "ideal-cipher model of AES-CBC-MAC / AES-CTR (contracts/crypto_model.py): no MAC collisions (also not on 32 transmitted bits), CTR decryption inverse to encryption under the same key and counter block and unrelated otherwise; 2^-32 / 2^-128 events treated as impossible",
+    "KNXIPFrame.to_knx/from_knx are inverse on the wrapped frame (C21)",
+]
